@@ -123,6 +123,12 @@ CLAIMS["C04"] = dict(
     note="Proved (finite regenerated table, decide): operator stubs of the primitives. Execution oracle only: methods/fields of user classes, collections, generics, first-use inference (the TypeConf model of DESIGN §4 is not built). Known unsound rows are recorded findings with their runtime message as trigger.",
     technique="Lean 4 proof over regenerated stub table vs CPython operator spec + execution oracle with type-changing mutants",
     design="§5 C04")
+CLAIMS["C15"] = dict(
+    text="Lean theorems, for every name: identifier_lexed_uniformly / rename_preserves_token (the lexer's dispatch yields an Id token carrying the whole spelling for EVERY legal non-keyword name and consumes exactly the name, so only the regenerated keyword table can tell two names apart), id_payload_chars + shadow_key_not_a_name + shadow_key_injective (an Id token only carries identifier characters, hence the shadowing key `x@1` of format_var_map — separator regenerated from builder.rs — never equals a user name and is injective in (name, offset)), fun_name_commutes / type_name_commutes / ordinary_names_unchanged (the two spelling-indexed tables of the generate stage, regenerated from definition.rs and clss/mod.rs, are the identity outside their keys and commute with every renaming avoiding the keys), and the witnesses undocumented_function_specials = [size], type_table_collisions (Slice/slice, Enum) which ARE the recorded findings. "
+         "End to end the property is decided on the implementation by a metamorphic oracle: verdict(P) = verdict(rho P), ast(out(rho P)) = ast(rho(out P)) for both annotate settings, and equal CPython behaviour when rho uses a colliding name, over all-ordinary, mixed, derived (x_1, x1, _x) and systematic single-name renamings into ordinary names, names resembling internal/Python-special names, and every identifier-like string literal the translator finds in the stages that inspect spellings.",
+    note="Proved for every name: lexer dispatch, generate-stage name tables, shadowing key. Oracle only: that no other code of the checker/generator inspects spellings (that is what the source-derived candidate pool targets). Four open findings (definition named size, type table applied to user names, user class merging with an internal stub class, generated import/builtin shadowed by a user name).",
+    technique="Lean 4 proof over lexer model and regenerated name tables + metamorphic renaming oracle",
+    design="§5 C15")
 NOT_YET = {}
 ALL = ["C%02d" % i for i in range(1, 21)]
 
@@ -153,7 +159,7 @@ def main():
             "guard": "cargo feature `verif` (off by default)",
             "enable": "the harness crate /verif/harness depends on mamba = { path = \"/repo\", features = [\"verif\"] }",
             "baseline_off_cmd": "python3 /verif/tools/baseline_check.py /repo",
-            "source_commits": ["4d90eb1"],
+            "source_commits": ["4d90eb1", "39ec960"],
             "add_only": True,
         },
         "engines": [{"name": "lean4-model+correspondence", "path": "/verif/lean, /verif/harness, /verif/tools",
